@@ -1,5 +1,6 @@
 import GeomV.C04.Model
 import GeomV.C04.Spec
+import GeomV.C04.NaN
 /-!
 Driver for C04: `geomv_c04 judge` reads `<input> => <implementation's answer>` lines and prints
   OK <class> | DIFF <class> <why> (implementation ≠ model) | SPEC <class> <why> (answer violates Spec).
@@ -154,11 +155,49 @@ def envOk (gk : Geom FKey) (b : Box FKey) : Bool :=
 def showFault : Fault → String
   | .index => "index" | .nilDeref => "nilDeref" | .nilFunc => "nilFunc" | .explicit => "explicit" | .badState => "badState" | .fuel => "fuel"
 
+/-- a geometry with NaN coordinates (outside the property's quantifier).  Len/Points do not look at coordinates
+(`C04_len`, `C04_points` hold for every coordinate type), so they are judged as usual, bit for bit; `Bounds()` is
+only compared with the model run at `NV FKey` (`math.Min/Max/<` with their NaN cases, NaN.lean; what that model
+computes is `C04_nan_bounds`): a difference is DIFF, never SPEC. -/
+def judgeGeomNaN (g : BGeom) (cls0 : String) (rhs : Tok) : String :=
+  let cls := cls0 ++ "-nan"
+  match pGeomAns rhs with
+  | none => s!"DIFF {cls} unparsable-answer {" ".intercalate (rhs.take 6)}"
+  | some a =>
+    if !noNil g then s!"OK {cls}-nil-outside" else
+    let vs := verticesBits g
+    let spec : Option String :=
+      if a.mutated then some "geometry-mutated"
+      else match a.len with
+      | none => some "Len-panicked"
+      | some n =>
+        if n != vs.length then some s!"Len={n}-but-{vs.length}-vertices"
+        else if !a.ptsOk then some s!"Points-panicked-after-{a.pts.length}-of-{n}"
+        else if a.pts != vs then some "Points-sequence-differs-from-storage-order"
+        else if !a.indep then some "two-iterators-interfere"
+        else none
+    match spec with
+    | some why => s!"SPEC {cls} {why}"
+    | none =>
+      let nvq (q : UInt64 × UInt64 × UInt64 × UInt64) : Box (NV FKey) :=
+        ⟨⟨nvOfBits q.1, nvOfBits q.2.1⟩, ⟨nvOfBits q.2.2.1, nvOfBits q.2.2.2⟩⟩
+      match boundsG (geomNV g), a.bnd with
+      | .ok b, some (some q) =>
+        if nvq q != b then s!"DIFF {cls} bounds differ from the model with NaN"
+        else if !a.again then s!"DIFF {cls} second-Bounds-call-differs"
+        else match a.hist with
+          | some (some (some q2)) => if nvq q2 == b then s!"OK {cls}" else s!"DIFF {cls} Bounds-depends-on-call-history"
+          | none => s!"OK {cls}"
+          | _ => s!"DIFF {cls} Bounds-panicked-or-nil-after-the-caller-mutated-an-earlier-result"
+      | .ok _, _ => s!"DIFF {cls} bounds model=ok impl=panic/nil"
+      | .error _, none => s!"OK {cls}"
+      | .error e, some _ => s!"DIFF {cls} bounds model=fault-{showFault e}"
+
 def judgeGeom (g : BGeom) (rhs : Tok) : String :=
   let run := emptyRun g
   let cls0 := "geom-" ++ geomClass g ++ (if run ≥ 2 then "-emptyrun" else if run = 1 then "-emptymember" else "")
   match geomKey g with
-  | none => "OK skipped-nan"
+  | none => judgeGeomNaN g cls0 rhs
   | some gk =>
   match pGeomAns rhs with
   | none => s!"DIFF {cls0} unparsable-answer {" ".intercalate (rhs.take 6)}"
